@@ -26,6 +26,9 @@ fn configs() -> Vec<(&'static str, Value)> {
                         "oovProviderPlugin": [mecab, regex("[-a-zA-Z0-9]+", -32000), simple], "pathRewritePlugin": [numeric, katakana]})),
         ("regex-empty-match", json!({"characterDefinitionFile": "char.def", "inputTextPlugin": [default_in],
                         "oovProviderPlugin": [regex("x*", 100), regex("(?:)", 5), simple]})),
+        // the only way from the first unknown symbol to the second crosses an inhibited (cost i16::MAX) connection: still a path
+        ("inhibited", json!({"characterDefinitionFile": "char.def", "inputTextPlugin": [default_in], "oovProviderPlugin": [simple],
+                        "connectionCostPlugin": [{"class": "com.worksap.nlp.sudachi.InhibitConnectionPlugin", "inhibitPair": [[8, 8], [0, 8], [8, 0]]}]})),
         ("cost-extremes", json!({"characterDefinitionFile": "char.def", "inputTextPlugin": [default_in],
                         "oovProviderPlugin": [{"class": "com.worksap.nlp.sudachi.SimpleOovPlugin", "oovPOS": pos, "leftId": 0, "rightId": 9, "cost": 32767},
                                               {"class": "com.worksap.nlp.sudachi.SimpleOovPlugin", "oovPOS": pos, "leftId": 9, "rightId": 0, "cost": -32768}]})),
@@ -136,7 +139,9 @@ pub fn run(args: &Args) {
     // `userPOS: allow` providers of the "full" configuration (POS tables are merged when the dictionary is put together)
     let shared_pos = "名詞,普通名詞,REGEX,*,*,*";
     let u2 = compile_user(&system, &format!("ゆず,6,6,2816,ゆず,{0},ユズ,ゆず,*,A,*,*,*,*\nだいだい,8,8,2000,だいだい,被子植物門,双子葉植物綱,ムクロジ目,ミカン科,ミカン属,ダイダイ,ダイダイ,だいだい,*,A,*,*,*,*\n", shared_pos));
-    let u3 = compile_user(&system, &format!("れもん,6,6,2816,れもん,被子植物門,双子葉植物綱,ムクロジ目,ミカン科,ミカン属,レモン,レモン,れもん,*,A,*,*,*,*\nらいむ,8,8,2100,らいむ,{0},ライム,らいむ,*,A,*,*,*,*\nぽんかん,8,8,2100,ぽんかん,柑橘,新種,*,*,*,*,ポンカン,ぽんかん,*,A,*,*,*,*\n", shared_pos));
+    // (the third dictionary also holds abbreviation-like words whose declared units are together LONGER than the word:
+    //  the last unit takes what is left of the word)
+    let u3 = compile_user(&system, &format!("東都,6,6,2000,東都,名詞,固有名詞,地名,一般,*,*,トウト,東都,*,C,5/9,5/9,*,*\n京京,6,6,2000,京京,名詞,固有名詞,地名,一般,*,*,キョウキョウ,京京,*,C,3/5,3/5,*,*\nれもん,6,6,2816,れもん,被子植物門,双子葉植物綱,ムクロジ目,ミカン科,ミカン属,レモン,レモン,れもん,*,A,*,*,*,*\nらいむ,8,8,2100,らいむ,{0},ライム,らいむ,*,A,*,*,*,*\nぽんかん,8,8,2100,ぽんかん,柑橘,新種,*,*,*,*,ポンカン,ぽんかん,*,A,*,*,*,*\n", shared_pos));
     let extra_users: Vec<Vec<u8>> = match (u2, u3) {
         (Ok(a), Ok(b)) => vec![a, b],
         (a, b) => {
@@ -172,7 +177,7 @@ pub fn run(args: &Args) {
             for t in nasty() {
                 texts.push(("hostile".into(), t));
             }
-            for t in ["ゆずとれもんとらいむ", "ぽんかんだいだいすだちかぼす", "abc-12ゆずらいむぽんかん東京府"] {
+            for t in ["ゆずとれもんとらいむ", "ぽんかんだいだいすだちかぼす", "abc-12ゆずらいむぽんかん東京府", "東都", "東都に行った京京", "京京", "☆★", "☆★☆", "東京☆★に"] {
                 texts.push(("hostile".into(), t.to_string()));
             }
             for _ in 0..args.n(150, 3000) {
